@@ -584,9 +584,10 @@ def handle_end_progs(state: TokenizerState) -> Iterator[TokenInfo]:
         return
 
     if state.in_fstring() or state.in_colon():
+        pos = state.pos
         yield from handle_fstring_progs(state, state.end_progs[-1])
-        # else:
-        #     raise TokenError(f"Expected {endprog.quote} inside f-string", (state.lnum, state.pos))
+        if state.pos != pos:  # a part was emitted, nothing is left pending
+            return
 
     elif endmatch := state.match(state.end_progs[-1].pattern):  # all on one line
         end = endmatch.end(0)
@@ -600,7 +601,7 @@ def handle_end_progs(state: TokenizerState) -> Iterator[TokenInfo]:
     if state.in_multi_line_string() or state.in_continued_string():
         state.end_progs[-1].join_line(state)
         state.pos = state.max
-    elif state.end_progs[-1].mode is None:  # a plain single-quoted string must end on its line
+    elif state.end_progs[-1].mode is None or state.in_fstring():  # a single-quoted string must end on its line
         raise TokenError("unterminated string literal", state.end_progs[-1].start)
     elif state.pos == 0:  # called at start of the line
         state.end_progs[-1].join_line(state)
